@@ -11,6 +11,7 @@ SCHEMA = "py_gql.schema.schema"
 
 
 def check(prog, run):
+    check_type_name_exemption(prog, run, "V11")
     check_interface_argument_invariance(prog, run, "V10")
     sv = prog.get_class(VAL, "SchemaValidator")
     call = sv.methods["__call__"]
@@ -716,3 +717,47 @@ def check_interface_argument_invariance(prog, run, rule_id):
     if bad:
         run.report(r, "%s:SchemaValidator.validate_implementation:argument-invariance" % VAL, vi.where(lp),
                    "interface argument types are not compared for equality: %s" % bad[:3], {"rows": bad})
+
+
+def check_type_name_exemption(prog, run, rule_id):
+    """Only the library's own types escape the name check, and they are recognised by identity."""
+    from .. import boolx
+    import re
+    r = run.rule(rule_id, "SchemaValidator.__call__, per registered type: for a type that is neither an introspection type nor a specified "
+                          "scalar (both recognised by identity: is_introspection_type(t), `t in SPECIFIED_SCALAR_TYPES`) and whose name is "
+                          "not valid, every execution records the name error - no test on the *spelling* of the name (a `__` prefix, a "
+                          "reserved-name table) exempts a user type", 1)
+    sv = prog.get_class(VAL, "SchemaValidator")
+    call = sv.methods.get("__call__")
+    if call is None:
+        raise AnalysisError("C13.%s: SchemaValidator.__call__ not found" % rule_id)
+    run.looked_at(call)
+    loops = [n for n in own_nodes(call.node) if isinstance(n, ast.For) and "types" in ast.unparse(n.iter)]
+    if len(loops) != 1:
+        raise AnalysisError("C13.%s: the loop over the schema's types was not found" % rule_id)
+    body = boolx.body_function(loops[0].body)
+
+    def decide(t):
+        if re.match(r"^is_introspection_type\(\w+\)$", t):
+            return False
+        if re.match(r"^\w+ in SPECIFIED_SCALAR_TYPES$", t) or re.match(r"^\w+ in INTROPSPECTION_TYPES$", t):
+            return False
+        if re.match(r"^_is_valid_name\(\w+\.name\)$", t):
+            return False
+        return None
+    try:
+        _ev, exits = boolx.walk_under(body, decide)
+    except ValueError as e:
+        raise AnalysisError("C13.%s: %s" % (rule_id, e))
+    silent = None
+    n = 0
+    for kind, st, env in exits:
+        n += 1
+        if not any(isinstance(c.func, ast.Attribute) and c.func.attr == "add_error" for c in env.get(boolx.CALLS, ())):
+            silent = {t: v for t, v in env.get(boolx.TESTS, ()) if decide(t) is None and "isinstance" not in t}
+            break
+    r.instance("user type with an invalid name: %d executions, all record the error: %s" % (n, silent is None))
+    if silent is not None:
+        run.report(r, "%s:SchemaValidator.__call__:name-exemption" % VAL, call.where(loops[0]),
+                   "a user type with an invalid name can pass the name check (when %s): only introspection types and specified scalars, "
+                   "recognised by identity, are exempt" % (", ".join("%s=%s" % kv for kv in sorted(silent.items())) or "some other test holds"))
